@@ -190,7 +190,9 @@ def selftest(ctx):
             "a_ppm": 40, "b_ppm": -8, "dpa_udeg": 1200, "int_ppm": 35, "ratio_1e3": 1600, "z_milli": []}
     recs = [good, dict(good, id="st-pos", dpos_1e4px=201), dict(good, id="st-pa", dpa_udeg=-500001),
             dict(good, id="st-two", n_components=2), dict(good, id="st-circ", ratio_1e3=1000, dpa_udeg=40000000),
-            dict(good, id="st-noise", noise=True, z_milli=[100, -5200])]
+            dict(good, id="st-noise", noise=True, a_ppm=9000, z_milli=[100, -200, 30, -5200, 10, 20]),
+            dict(good, id="st-noise-ok", noise=True, a_ppm=9000, z_milli=[100, -200, 30, -4900, 10, 20]),
+            dict(good, id="st-noise-tol", noise=True, a_ppm=900, z_milli=[100, -200, 30, -9900, 10, 20])]
     rej = {r["id"]: f for r, f in validate(ctx, recs, "selftest")}
     if set(rej) != {"st-pos", "st-pa", "st-two", "st-noise"}:
         raise common.MachineryError("Recovery_Trace self-test failed: %r" % rej)
@@ -216,7 +218,7 @@ def run(ctx):
     # BANE configurations are thinned
     forced = [c for c in lattice if c["bkgrms"] == "forced"]
     internal = [c for c in lattice if c["bkgrms"] == "internal"]
-    chosen = rng.sample(forced, 80 if quick else 1200) + rng.sample(internal, 8 if quick else 120)
+    chosen = rng.sample(forced, 80 if quick else len(forced)) + rng.sample(internal, 8 if quick else 400)
     for k in lattice[0]:
         for v in {c[k] for c in lattice} - {c[k] for c in chosen}:
             chosen.append(rng.choice([c for c in lattice if c[k] == v]))
